@@ -105,6 +105,15 @@ func c13Corpus(tier string) []c13Case {
 		}
 		out = append(out, c13Case{"W0", c})
 	}
+	// several root node() lookups / fragments in one operation, one of them selecting nothing but id
+	// (every service that knows the type could answer it)
+	for _, q := range []string{
+		`{ full: node(id: "N1_1") { ... on N1 { name phone } } seen: node(id: "N1_2") { ... on N1 { id } } }`,
+		`{ node(id: "N1_1") { ... on N1 { name phone } ... on N2 { id } } }`,
+		`{ a: node(id: "N1_1") { ... on N1 { id } } b: node(id: "N2_1") { ... on N2 { title } } }`,
+	} {
+		out = append(out, c13Case{"W0", a.Case{Q: q}})
+	}
 	// abstract fields whose possible types get different helper sets (one fragment selects id itself)
 	for _, q := range []string{"{ us { ... on N1 { id phone } ... on N4 { label } } }", "{ us { ... on N1 { phone } ... on N4 { id label } } }",
 		"{ us { ... on N4 { label } } }", "{ us { __typename ... on N1 { id } ... on N4 { label } } }"} {
